@@ -5,6 +5,7 @@ import os, re, sys, json, time, subprocess, importlib, shutil, hashlib
 from concurrent.futures import ThreadPoolExecutor
 
 ROOT = os.path.dirname(os.path.dirname(os.path.abspath(__file__)))
+WORK = os.environ.get('VERIF_WORK', os.path.join(ROOT, '.work'))   # scratch directory of all runs
 sys.path.insert(0, ROOT)
 from tools import cxx2c
 from tools.cxx2c import Unsupported
@@ -480,7 +481,7 @@ def prepare_unit(unit_name, workdir):
 if __name__ == '__main__':
     # debugging aid:  vrun.py UNIT [harness ...]
     un = sys.argv[1]
-    wd = os.path.join(ROOT, '.work', 'dbg')
+    wd = os.path.join(WORK, 'dbg')
     try:
         pu = prepare_unit(un, wd)
     except Break as e:
